@@ -18,6 +18,8 @@ def add_indefinite_article(phrase):
     Returns:
         str: Either "an" or "a".
     """
+    if not phrase:
+        return phrase
     # Note: Must cast to string because it could be a SandboxResult
     if str(phrase[0]) in "aeiou":
         return "an "+phrase
